@@ -339,8 +339,67 @@ def solver_events(job, rng):
             yield ev
 
 
+def selftest_events():
+    """validator self-test: genuine events + copies with ONE recorded field corrupted each (expect = clause TLC must
+    report for the copy)"""
+    import copy
+    cache = {}
+    x = ["BVS", "x", [2], []]
+    y = ["BVS", "y", [2], []]
+    z = ["BVV", "", [0, 0], []]
+    cases = [(decorate(TM.T("__add__", x, y), {(0,): [["UA", ["1"]]]}), "unelim"),
+             (decorate(TM.T("__add__", x, z), {(1,): [["RT", ["2"]]]}), "reloc"),
+             (decorate(TM.T("__xor__", x, x), {(0,): [["RA", ["1"]]], (1,): [["RA", ["1"]]]}), "reloc"),
+             (decorate(TM.T("__add__", TM.T("__add__", x, y), z), {(0,): [["UA", ["1"]]]}), "unelim-moved")]
+    for dt, clause in cases:
+        ev = op_event(dt, cache)
+        ev.update(expect="", what="genuine")
+        yield ev
+        c = copy.deepcopy(ev)
+        if clause == "unelim":          # the annotated argument is recorded without its annotation inside the result
+            c["r"][3][0][4] = []
+        elif clause == "reloc":         # the relocated annotation is removed from the top of the recorded result
+            c["r"][4] = []
+        else:                           # the annotation is recorded on the result instead of on the surviving argument
+            c["r"][4] = c["r"][3][0][4]
+            c["r"][3][0] = c["r"][3][0][:4] + [[]]
+        c.update(expect=clause, what="corrupted result")
+        yield c
+    # explicit simplify
+    e = build_dec(decorate(TM.T("__add__", TM.T("__add__", x, ["BVV", "", [1, 0], []]), ["BVV", "", [1, 0], []]),
+                           {(): [["EA", ["90"]], ["UA", ["91"]]]}), cache)
+    ev = {"k": "simp", "w": DUMMY, "e": TM.ser(e, ann=True), "s": TM.ser(claripy.simplify(e), ann=True), "out": "ok",
+          "expect": "", "what": "genuine"}
+    yield ev
+    c = copy.deepcopy(ev)
+    c["s"][4] = c["s"][4][:1]
+    c.update(expect="simp-top", what="one top annotation removed from the recorded simplified expression")
+    yield c
+    # solver
+    s = claripy.Solver()
+    con = build_dec(decorate(TM.T("ULT", TM.T("__add__", ["BVS", "x", [4], []], ["BVV", "", [1, 0, 0, 0], []]),
+                                  ["BVV", "", [1, 1, 0, 0], []]), {(): [["SA", ["1"]]]}), cache)
+    s.add(con)
+    before = [TM.ser(k, ann=True) for k in s.constraints]
+    s.simplify()
+    ev = {"k": "solver", "frontend": "Solver", "cs": [], "before": before,
+          "after": [TM.ser(k, ann=True) for k in s.constraints], "out": "ok", "expect": "", "what": "genuine"}
+    yield ev
+    c = copy.deepcopy(ev)
+    c["after"][0][4] = []
+    c.update(expect="avoid", what="annotation removed from the recorded constraint after simplify()")
+    yield c
+
+
 def main():
     job = json.load(open(sys.argv[1]))
+    if job["gen"] == "selftest":
+        out = ShardWriter(sys.argv[2], 10 ** 9)
+        for i, ev in enumerate(selftest_events()):
+            ev["ix"] = i
+            out.write(ev)
+        out.close()
+        return
     rng = random.Random(job.get("seed", 0))
     out = ShardWriter(sys.argv[2], job.get("shard", 20000))
     part, nparts = job.get("part", 0), job.get("nparts", 1)
